@@ -18,6 +18,37 @@ fn long(n: usize) -> String {
     s
 }
 
+/// Texts with multi-byte characters placed so that the byte offsets around the path limit (1000 bytes) and
+/// the query limit (4096 bytes) fall inside a character, for every character width and alignment, plus
+/// short non-ASCII texts and texts of exactly the limit.  Variants 100+t put text t into the first text
+/// slot of an RPC, variants 200+t into its second one (where it has one).
+pub const N_TEXTS: Tok = 28;
+fn nasty(t: Tok) -> Option<String> {
+    let chars = ['\u{e9}', '\u{20ac}', '\u{1f600}'];
+    if (0..18).contains(&t) {
+        let target = if t < 9 { 1000 } else { 4096 };
+        let (wi, phase) = [(0, 0), (0, 1), (1, 0), (1, 1), (1, 2), (2, 0), (2, 1), (2, 2), (2, 3)][(t % 9) as usize];
+        let mut s = "a".repeat(phase);
+        while s.len() < target + 64 {
+            s.push(chars[wi]);
+        }
+        return Some(s);
+    }
+    Some(match t {
+        18 => "\u{e9}".to_string(),
+        19 => "Srv.\u{e9}".to_string(),
+        20 => "Srv.\u{0}".to_string(),
+        21 => "\u{feff}Srv".to_string(),
+        22 => "Srv.\u{1f600}.**".to_string(),
+        23 => "\u{e9}".repeat(500),
+        24 => format!("a{}", "\u{e9}".repeat(500)),
+        25 => "\u{e9}".repeat(2048),
+        26 => format!("Srv.{}", "\u{20ac}".repeat(400)),
+        27 => format!("Srv.R0\u{301}.\u{202e}x"),
+        _ => return None,
+    })
+}
+
 fn ts(seconds: i64, nanos: i32) -> Option<prost_types::Timestamp> {
     Some(prost_types::Timestamp { seconds, nanos })
 }
@@ -41,6 +72,18 @@ pub async fn call_shape(ch: &Channel, rpc: Tok, variant: Tok, k: Tok, hdr: &Opti
     let mut sb = ps::broker_client::BrokerClient::new(ch.clone()).max_decoding_message_size(64 << 20);
     let mut sc = ps::collector_client::CollectorClient::new(ch.clone()).max_decoding_message_size(64 << 20);
     let value_f = p1::Field::Value as i32;
+    let text = if variant >= 100 {
+        match nasty(variant % 100) {
+            Some(s) => s,
+            None => return -2,
+        }
+    } else {
+        String::new()
+    };
+    let second = variant >= 200;
+    if variant >= 300 || (second && ![1, 2, 11, 12, 17, 19].contains(&rpc)) {
+        return -2;
+    }
     match rpc {
         // ---------------- kuksa.val.v1 Get
         0 => {
@@ -58,6 +101,7 @@ pub async fn call_shape(ch: &Channel, rpc: Tok, variant: Tok, k: Tok, hdr: &Opti
                 10 => (0..1000).map(|_| er(name.clone(), 20, vec![])).collect(),
                 11 => vec![er(name.clone(), -1, vec![-5])],
                 12 => vec![er("*".into(), 3, vec![17, 20, 30, 40])],
+                v if v >= 100 => vec![er(name.clone(), 1, vec![value_f]), er(text.clone(), 1, vec![value_f])],
                 _ => return -2,
             };
             code_of(v1.get(with_auth(p1::GetRequest { entries }, hdr)).await)
@@ -111,6 +155,13 @@ pub async fn call_shape(ch: &Channel, rpc: Tok, variant: Tok, k: Tok, hdr: &Opti
                     }),
                     fields: vec![10, 11, 13],
                 }],
+                v if v >= 200 => vec![v1_entry(
+                    &name,
+                    Some(p1::Datapoint { timestamp: None, value: Some(p1::datapoint::Value::String(text.clone())) }),
+                    None,
+                    vec![value_f],
+                )],
+                v if v >= 100 => vec![v1_entry(&text, Some(v1_i32(k)), None, vec![value_f])],
                 _ => return -2,
             };
             if rpc == 1 {
@@ -135,6 +186,7 @@ pub async fn call_shape(ch: &Channel, rpc: Tok, variant: Tok, k: Tok, hdr: &Opti
                 6 => vec![se("**".into(), 20, vec![])],
                 7 => vec![se(name.clone(), 1, vec![]), se("Srv..".into(), 1, vec![value_f])],
                 8 => (0..500).map(|_| se(name.clone(), 20, vec![value_f, 3, 10])).collect(),
+                v if v >= 100 => vec![se(text.clone(), 1, vec![value_f])],
                 _ => return -2,
             };
             first(v1.subscribe(with_auth(p1::SubscribeRequest { entries }, hdr)).await).await
@@ -149,6 +201,7 @@ pub async fn call_shape(ch: &Channel, rpc: Tok, variant: Tok, k: Tok, hdr: &Opti
                 5 => Some(p2::SignalId { signal: Some(p2::signal_id::Signal::Id(-1)) }),
                 6 => Some(p2::SignalId { signal: Some(p2::signal_id::Signal::Id(i32::MAX)) }),
                 7 => v2_sig("Srv.*"),
+                v if v >= 100 => v2_sig(&text),
                 _ => return -2,
             };
             if rpc == 5 {
@@ -173,6 +226,7 @@ pub async fn call_shape(ch: &Channel, rpc: Tok, variant: Tok, k: Tok, hdr: &Opti
                 5 => (vec![name.clone()], 1001),
                 6 => ((0..10_000).map(|_| name.clone()).collect(), 1000),
                 7 => (vec![long(100_000)], 1),
+                v if v >= 100 => (vec![text.clone()], 1),
                 _ => return -2,
             };
             first(v2.subscribe(with_auth(p2::SubscribeRequest { signal_paths, buffer_size }, hdr)).await).await
@@ -203,6 +257,7 @@ pub async fn call_shape(ch: &Channel, rpc: Tok, variant: Tok, k: Tok, hdr: &Opti
                     }),
                 },
                 7 => p2::ActuateRequest { signal_id: Some(p2::SignalId { signal: Some(p2::signal_id::Signal::Id(i32::MIN)) }), value: None },
+                v if v >= 100 => p2::ActuateRequest { signal_id: v2_sig(&text), value: v2_dp(k).value },
                 _ => return -2,
             };
             if rpc == 9 {
@@ -222,6 +277,8 @@ pub async fn call_shape(ch: &Channel, rpc: Tok, variant: Tok, k: Tok, hdr: &Opti
                 5 => ("Srv.*".to_string(), "*".to_string()),
                 6 => ("Srv..".to_string(), "".to_string()),
                 7 => ("*.**.*".to_string(), "\u{0}".to_string()),
+                v if v >= 200 => ("Srv".to_string(), text.clone()),
+                v if v >= 100 => (text.clone(), "".to_string()),
                 _ => return -2,
             };
             code_of(v2.list_metadata(with_auth(p2::ListMetadataRequest { root, filter }, hdr)).await)
@@ -258,6 +315,14 @@ pub async fn call_shape(ch: &Channel, rpc: Tok, variant: Tok, k: Tok, hdr: &Opti
                     signal_id: v2_sig(&name),
                     data_point: Some(p2::Datapoint { timestamp: ts(-62135596801, 0), value: v2_dp(k).value }),
                 },
+                v if v >= 200 => p2::PublishValueRequest {
+                    signal_id: v2_sig(&name),
+                    data_point: Some(p2::Datapoint {
+                        timestamp: None,
+                        value: Some(p2::Value { typed_value: Some(p2::value::TypedValue::String(text.clone())) }),
+                    }),
+                },
+                v if v >= 100 => p2::PublishValueRequest { signal_id: v2_sig(&text), data_point: Some(v2_dp(k)) },
                 _ => return -2,
             };
             code_of(v2.publish_value(with_auth(req, hdr)).await)
@@ -296,6 +361,9 @@ pub async fn call_shape(ch: &Channel, rpc: Tok, variant: Tok, k: Tok, hdr: &Opti
                     dps.insert(id, p2::Datapoint { timestamp: ts(i64::MAX, i32::MIN), value: Some(p2::Value { typed_value: None }) });
                     vec![act(Some(A::PublishValuesRequest(p2::PublishValuesRequest { request_id: i32::MIN, data_points: dps })))]
                 }
+                v if v >= 100 => vec![act(Some(A::ProvideActuationRequest(p2::ProvideActuationRequest {
+                    actuator_identifiers: vec![v2_sig(&text).unwrap()],
+                })))],
                 _ => return -2,
             };
             first(v2.open_provider_stream(with_auth(tokio_stream::iter(reqs), hdr)).await).await
@@ -307,6 +375,7 @@ pub async fn call_shape(ch: &Channel, rpc: Tok, variant: Tok, k: Tok, hdr: &Opti
                 2 => vec!["".to_string()],
                 3 => vec![long(100_000)],
                 4 => (0..10_000).map(|_| name.clone()).collect(),
+                v if v >= 100 => vec![name.clone(), text.clone()],
                 _ => return -2,
             };
             code_of(sb.get_datapoints(with_auth(ps::GetDatapointsRequest { datapoints }, hdr)).await)
@@ -329,6 +398,9 @@ pub async fn call_shape(ch: &Channel, rpc: Tok, variant: Tok, k: Tok, hdr: &Opti
                 }
                 6 => {
                     m.insert(long(100_000), sdv_dp(k));
+                }
+                v if v >= 100 => {
+                    m.insert(text.clone(), sdv_dp(k));
                 }
                 _ => return -2,
             }
@@ -360,6 +432,8 @@ pub async fn call_shape(ch: &Channel, rpc: Tok, variant: Tok, k: Tok, hdr: &Opti
                 22 => format!("SELECT {}", vec![name.clone(); 200].join(",")),
                 23 => format!("SELECT {} WHERE {}1 > {}", name, "-".repeat(33), name),
                 20 => "x".repeat(4097),
+                v if v >= 200 => format!("SELECT {} WHERE {} = '{}'", name, name, text),
+                v if v >= 100 => text.clone(),
                 _ => return -2,
             };
             first(sb.subscribe(with_auth(ps::SubscribeRequest { query }, hdr)).await).await
@@ -369,6 +443,7 @@ pub async fn call_shape(ch: &Channel, rpc: Tok, variant: Tok, k: Tok, hdr: &Opti
                 1 => vec![],
                 2 => vec!["".to_string()],
                 3 => vec![long(100_000), "**".to_string()],
+                v if v >= 100 => vec![text.clone()],
                 _ => return -2,
             };
             code_of(sb.get_metadata(with_auth(ps::GetMetadataRequest { names }, hdr)).await)
@@ -390,6 +465,13 @@ pub async fn call_shape(ch: &Channel, rpc: Tok, variant: Tok, k: Tok, hdr: &Opti
                 6 => vec![rm(format!("Srv.New{}", k), -1, -1)],
                 7 => vec![rm("Srv..X".into(), 4, 1), rm("Srv.*".into(), 4, 1)],
                 8 => (0..2000).map(|i| rm(format!("Srv.Bulk{}", i), (i % 30) as i32, (i % 5) as i32)).collect(),
+                v if v >= 200 => vec![ps::RegistrationMetadata {
+                    name: format!("Srv.Txt{}", k),
+                    data_type: 4,
+                    description: text.clone(),
+                    change_type: 1,
+                }],
+                v if v >= 100 => vec![rm(text.clone(), 4, 1)],
                 _ => return -2,
             };
             code_of(sc.register_datapoints(with_auth(ps::RegisterDatapointsRequest { list }, hdr)).await)
